@@ -55,6 +55,7 @@ type member struct {
 	name string
 	cfg  gen.Config
 	root *fam.Spec
+	tag  string // when set, findings on this member are keyed by the scenario: "[tag] construct"
 }
 
 // runMember explores a member and hands each world to check; bookkeeping of
@@ -110,6 +111,7 @@ func runMemberOpt(c *core.Ctx, mb member, rules map[string]bool, budget int, siz
 		wkey := fmt.Sprintf("%s world%v", key, w.Script)
 		bad, knownHere := 0, 0
 		for _, is := range issues {
+
 			base := is.Rule
 			if i := strings.IndexByte(base, ':'); i >= 0 {
 				base = base[:i]
@@ -124,6 +126,10 @@ func runMemberOpt(c *core.Ctx, mb member, rules map[string]bool, budget int, siz
 			if !strings.HasPrefix(is.Rule, "A-CTX") {
 				// only context findings are tied to one template; the others are identified by function + construct
 				fn = strings.SplitN(fn, " :: ", 2)[0]
+			}
+			if mb.tag != "" && is.Rule != "A-UNDECIDED" && !c.IsKnown(is.Rule, fn, is.Construct) {
+				// a scenario member: what is not already a listed finding is keyed by the scenario
+				is.Construct = "[" + mb.tag + "] " + is.Construct
 			}
 			if c.IsKnown(is.Rule, fn, is.Construct) {
 				knownHere++
@@ -400,6 +406,9 @@ func anyOfMembers(tier string, cfg gen.Config) []member {
 		}
 		out = append(out, member{name: fmt.Sprintf("anyOf property N=%d", n), cfg: cfg, root: &fam.Spec{Kind: "object", Props: []*fam.Prop{{Label: "u", Spec: &fam.Spec{Kind: "object", AnyOf: bs2}, Required: n%2 == 0}}}})
 		if n == 2 {
+			// a branch that is a reference to a definition WITHOUT any validation (no required, no constraint): it still needs the unmarshalers the validator calls
+			plainDef := &fam.Spec{Kind: "object", Ref: "$defs", Props: []*fam.Prop{{Label: "a", Spec: &fam.Spec{Kind: "string"}}}}
+			out = append(out, member{name: "anyOf property with a referenced branch without validation", cfg: cfg, root: &fam.Spec{Kind: "object", Props: []*fam.Prop{{Label: "u", Spec: &fam.Spec{Kind: "object", AnyOf: []*fam.Spec{plainDef, branch(1)}}}}}})
 			// an anyOf DEFINITION that two properties refer to (one type, generated once)
 			var bs3 []*fam.Spec
 			for i := 0; i < n; i++ {
